@@ -117,7 +117,7 @@ func genKqDir(prop string, seed uint64, run int, tier string) *Scenario {
 	g := newGen(seed)
 	sc := &Scenario{Prop: prop, Family: "kqdir", Seed: seed, Run: run}
 	g.swarm(&sc.Cfg)
-	sc.Cfg.Lagfree = true
+	sc.Cfg.Lagfree = !g.chance(0.3) // 30 %: no pauses (only the safety half of the oracle applies)
 	sc.Cfg.Policy = "random"
 	sc.Cfg.Coalesce = g.chance(0.5)
 	setup := []Op{{K: OpMkdir, P: "w"}, {K: OpMkdir, P: "w/a"}, {K: OpMkdir, P: "w/b"}, {K: OpMkdir, P: "out"}, {K: OpSymlink, P: "w/la", P2: "a"}}
